@@ -131,10 +131,41 @@ structure Keeps (x x' : Proc) : Prop where
   result : x'.result = x.result
   keys : ∀ k, (alookup x'.awaiting k).isSome = (alookup x.awaiting k).isSome
   failed : ∀ k ∈ x.awaitFailed, k ∈ x'.awaitFailed
+  stored : ∀ k v, (k, some v) ∈ x.awaiting → ∃ v', (k, some v') ∈ x'.awaiting
 
-theorem Keeps.refl (x : Proc) : Keeps x x := ⟨rfl, fun _ => rfl, fun _ h => h⟩
+theorem Keeps.refl (x : Proc) : Keeps x x := ⟨rfl, fun _ => rfl, fun _ h => h, fun _ v h => ⟨v, h⟩⟩
 theorem Keeps.trans {x y z : Proc} (h1 : Keeps x y) (h2 : Keeps y z) : Keeps x z :=
-  ⟨h2.result.trans h1.result, fun k => (h2.keys k).trans (h1.keys k), fun k hk => h2.failed k (h1.failed k hk)⟩
+  ⟨h2.result.trans h1.result, fun k => (h2.keys k).trans (h1.keys k), fun k hk => h2.failed k (h1.failed k hk),
+   fun k v h => by obtain ⟨v', h'⟩ := h1.stored k v h; exact h2.stored k v' h'⟩
+
+theorem mem_ainsert_some {l : List (Nat × Option Val)} {k x : Nat} {v y : Val} (h : (k, some v) ∈ l) :
+    ∃ v', (k, some v') ∈ ainsert l x (some y) := by
+  induction l with
+  | nil => cases h
+  | cons kv rest ih =>
+    obtain ⟨k0, v0⟩ := kv
+    unfold ainsert
+    by_cases hk : k0 = x
+    · simp only [hk, if_true]
+      rcases List.mem_cons.mp h with h | h
+      · simp only [Prod.mk.injEq] at h
+        exact ⟨y, by rw [h.1, hk]; simp⟩
+      · exact ⟨v, List.mem_cons_of_mem _ h⟩
+    · simp only [hk, if_false]
+      rcases List.mem_cons.mp h with h | h
+      · exact ⟨v, by rw [h]; simp⟩
+      · obtain ⟨v', hv'⟩ := ih h
+        exact ⟨v', List.mem_cons_of_mem _ hv'⟩
+
+theorem mem_ainsert_self {β : Type} (l : List (Nat × β)) (x : Nat) (y : β) : (x, y) ∈ ainsert l x y := by
+  induction l with
+  | nil => simp [ainsert]
+  | cons kv rest ih =>
+    obtain ⟨k0, v0⟩ := kv
+    unfold ainsert
+    by_cases hk : k0 = x
+    · simp [hk]
+    · simp only [hk, if_false]; exact List.mem_cons_of_mem _ ih
 
 theorem Keeps.still {x x' : Proc} (h : Keeps x x') (t : Pid) : x'.stillAwaiting t = x.stillAwaiting t := by
   simp [Proc.stillAwaiting, h.result, h.keys t]
@@ -152,7 +183,7 @@ theorem notifyResult_keeps (w : WorkerSt) (a t : Pid) (r : Res) (x : Proc) (hx :
   | ok v =>
     simp only [WorkerSt.notifyResult, WorkerSt.notifyResultOk, wakeSelecting_procs, WorkerSt.modProc, hx]
     by_cases hs : x.stillAwaiting t = true
-    · refine ⟨{ x with awaiting := ainsert x.awaiting t (some v) }, by simp [hs], ⟨rfl, ?_, fun _ h => h⟩, by intro h; cases h⟩
+    · refine ⟨{ x with awaiting := ainsert x.awaiting t (some v) }, by simp [hs], ⟨rfl, ?_, fun _ h => h, fun k v0 h => mem_ainsert_some h⟩, by intro h; cases h⟩
       intro k
       simp only [alookup_ainsert]
       by_cases hk : t = k
@@ -165,7 +196,7 @@ theorem notifyResult_keeps (w : WorkerSt) (a t : Pid) (r : Res) (x : Proc) (hx :
     simp only [WorkerSt.notifyResult, WorkerSt.notifyFailure, hx]
     by_cases hs : x.stillAwaiting t = true
     · simp only [hs, if_true, wakeSelecting_procs, WorkerSt.modProc, hx]
-      exact ⟨{ x with awaitFailed := sinsert x.awaitFailed t }, by simp, ⟨rfl, fun _ => rfl, fun k hk => mem_sinsert.mpr (Or.inl hk)⟩,
+      exact ⟨{ x with awaitFailed := sinsert x.awaitFailed t }, by simp, ⟨rfl, fun _ => rfl, fun k hk => mem_sinsert.mpr (Or.inl hk), fun _ v h => ⟨v, h⟩⟩,
         fun _ _ => mem_sinsert.mpr (Or.inr rfl)⟩
     · have hs' : x.stillAwaiting t = false := by simpa using hs
       simp only [hs']
